@@ -353,7 +353,7 @@ func RunRounds(w *tr.Writer, in *tr.Interner, st *RStats, tid int, h RHist) {
 			res := Guard(func() string {
 				var err error
 				if op.Op == "ins" {
-					_, err = t.trie.Insert(util.Path(append([]byte(nil), p...)), Val(ValBytes(op.V)))
+					_, err = InsertScribbled(t.trie, p, ValBytes(op.V))
 				} else {
 					_, err = t.trie.Delete(util.Path(append([]byte(nil), p...)))
 				}
@@ -392,7 +392,7 @@ func RunRounds(w *tr.Writer, in *tr.Interner, st *RStats, tid int, h RHist) {
 					if del {
 						_, err = t.trie.Delete(util.Path(append([]byte(nil), p...)))
 					} else {
-						_, err = t.trie.Insert(util.Path(append([]byte(nil), p...)), Val([]byte(v)))
+						_, err = InsertScribbled(t.trie, p, []byte(v))
 					}
 					return ResClass(err)
 				})
